@@ -220,10 +220,55 @@ EncodingLaw ==
          ELSE IF TabDiff(B.toks, D.toks) # "" THEN TabDiff(B.toks, D.toks) ELSE "ok")
 
 -----------------------------------------------------------------------------
+(* C18 (first half) - inline text means the same in every block context.
+   inline_mode: base = parse(src), der = parseInline(src); bh / dh = render / renderInline as code points.
+   embed: base = parse(t) (paragraph context), der = parse(context(t)); t as code points in Tr.a.t,
+          Tr.a.ctx names the context; ih = HTML of the inline children in each context. *)
+IsSinglePara(ts) ==
+    /\ Len(ts) = 3 /\ ts[1].ty = "paragraph_open" /\ ts[2].ty = "inline" /\ ts[3].ty = "paragraph_close"
+
+POpen  == <<60, 112, 62>>
+PClose == <<60, 47, 112, 62, 10>>
+
+InlineModeLaw ==
+    LET B == Tr.base D == Tr.der IN
+    IF ~IsSinglePara(B.toks) THEN "skip:not_a_single_paragraph"
+    ELSE IF B.toks[2].c # Tr.a.src THEN "skip:paragraph_does_not_hold_the_source"
+    ELSE IF Len(D.toks) # 1 \/ D.toks[1].ty # "inline" THEN "not_one_inline_token"
+    ELSE IF D.toks[1].kids # B.toks[2].kids THEN "children"
+    ELSE IF D.toks[1].c # B.toks[2].c THEN "content"
+    ELSE IF B.bh # POpen \o D.dh \o PClose THEN "renderInline"
+    ELSE "ok"
+
+IsAlnum(c) == (c >= 48 /\ c <= 57) \/ (c >= 65 /\ c <= 90) \/ (c >= 97 /\ c <= 122)
+
+InlineOf(ts) ==   \* the inline tokens of a stream, in order
+    SelectSeq(ts, LAMBDA x : x.ty = "inline")
+
+EmbedLaw ==
+    LET B == Tr.base D == Tr.der t == Tr.a.t ctx == Tr.a.ctx IN
+    IF t = <<>> \/ t[1] \in {32, 9} \/ t[Len(t)] \in {32, 9} THEN "skip:not_trimmed"
+    ELSE IF \E k \in DOMAIN t : t[k] \in {10, 13} THEN "skip:not_one_line"
+    ELSE IF ~IsSinglePara(B.toks) \/ B.toks[2].c # Tr.a.src THEN "skip:block_syntax_in_paragraph_context"
+    ELSE IF ctx \in {"list", "quote"} /\ ~IsAlnum(t[1]) THEN "skip:not_alphanumeric_start"
+    ELSE IF ctx = "atx" /\ t[Len(t)] = 35 THEN "skip:trailing_hash"
+    ELSE IF ctx = "cell" /\ \E k \in DOMAIN t : t[k] \in {124, 92, 96} THEN "skip:pipe_backslash_backtick_in_cell"
+    ELSE LET ins == InlineOf(D.toks)
+             want == IF ctx = "cell" THEN 2 ELSE 1    \* header cell + the body cell
+         IN
+         IF Len(ins) # want THEN "inline_token_count"
+         ELSE IF ins[want].c # B.toks[2].c THEN "content"
+         ELSE IF ins[want].kids # B.toks[2].kids THEN "children"
+         ELSE IF D.ih # B.ih THEN "inline_html"
+         ELSE "ok"
+
+-----------------------------------------------------------------------------
 Verdict == CASE Tr.op = "quote" -> QuoteLaw
              [] Tr.op = "list" -> ListLaw
              [] Tr.op = "concat" -> ConcatLaw
              [] Tr.op \in {"eol", "nul", "tabs_lead", "tabs_all"} -> EncodingLaw
+             [] Tr.op = "inline_mode" -> InlineModeLaw
+             [] Tr.op = "embed" -> EmbedLaw
              [] OTHER -> "harness:unknown_law"
 
 Consume == /\ l' = l + 1 /\ verdict' = Verdict /\ UNCHANGED <<tid, done>>
